@@ -233,6 +233,23 @@ CHECKS['C17'] = ('DESIGN.md#C17',
     'only on background-subtracted, well-contained sources (documented '
     'precondition); tolerances 1e-5..1e-3 px for fits.')
 
+CHECKS['C18'] = ('DESIGN.md#C18',
+    'Hypothesis-generated image shapes/models (analytic, PRF, image-based, '
+    'compound, unit-ful)/parameter tables (positions inside, on the edge, '
+    'just outside, far outside; per-row model_shape/local_bkg; params_map '
+    'with colliding column names) vs. an independent superposition oracle '
+    'plus permutation/additivity laws and PSF model/residual image '
+    'consistency',
+    'Generated-input search: the rendered image must equal the sum over '
+    'rows of a fresh model evaluated on the window astropy\'s '
+    'overlap_slices gives (plus local_bkg), rows without overlap skipped; '
+    'invariant under row permutation, additive over table splits, unit of '
+    'the model kept whichever rows overlap, input model and table '
+    'unchanged; PSFPhotometry model/residual images and '
+    'make_psf_model_image agree with make_model_image on their parameter '
+    'tables. Held on N cases; not a proof.',
+    'Trusted: astropy overlap_slices and discretize_model. rel 1e-12.')
+
 NOT_APPLICABLE = []
 
 
